@@ -188,6 +188,18 @@ func famSession(sc *scn.Scenario, em func(vt.Ev)) {
 			case "series":
 				// the values of a new series are its own (no ties between two new series: topk over tied values may pick either)
 				ns = append(ns, vstore.Series{L: labels.FromStrings("__name__", "m", "a", "x", "b", fmt.Sprintf("new%d", nextTick)), T: []int64{sc.Ms(nextTick - 2), sc.Ms(nextTick)}, V: []float64{float64(1000 + nextTick*7), float64(1003 + nextTick*7)}})
+			case "late":
+				// a sample of the metric `late` (a="x"): the first one creates the metric
+				found := false
+				for j := range ns {
+					if ns[j].L.Get("__name__") == "late" {
+						ns[j] = vstore.Series{L: ns[j].L, T: append(append([]int64{}, ns[j].T...), sc.Ms(nextTick)), V: append(append([]float64{}, ns[j].V...), float64(5000+nextTick))}
+						found = true
+					}
+				}
+				if !found {
+					ns = append(ns, vstore.Series{L: labels.FromStrings("__name__", "late", "a", "x"), T: []int64{sc.Ms(nextTick)}, V: []float64{float64(5000 + nextTick)}})
+				}
 			case "gap":
 				nextTick += 4
 			}
